@@ -55,6 +55,7 @@ PROPERTY_INVS = (
     "BlocksPartition",
     "BlocksLocal",
     "BlocksShape",
+    "SplitterKeepsOwn",
 )
 
 def _seq(t):
@@ -80,10 +81,21 @@ def hash_name(s):
 class Uni:
     """mixed: 'none' | 'element' | 'space'; vsub / usub: shapes of the sub-spaces of the test /
     trial space (usub None: no trial function); udeg: polynomial degree of the trial space
-    (2: a different space than the test space even for equal shapes)."""
+    (2: a different space than the test space even for equal shapes).
+    vkinds / ukinds: the kind of every sub-element (default "P": Lagrange, reference value shape =
+    physical value shape = the entry of vsub / usub); "sym": symmetric 2x2 tensor element (entry
+    (2, 2), reference value size 3); "curl": covariant Piola mapped vector element (reference value
+    shape (tdim,) = (2,), physical value shape (gdim,)).  gdim: geometric dimension of the mesh
+    (3: a triangle mesh immersed in 3D)."""
 
-    def __init__(self, name, mixed, vsub, usub, coefs, ops, maxnodes, formops, keypairs=(), lits=(("two", 2),), udeg=1, complex_env=True, simulate=None, depth=None, exclude=(), nenv=2, pre=(), uplain=False, wrapidx=False):
+    SUB_KINDS = ("P", "sym", "curl")
+
+    def __init__(self, name, mixed, vsub, usub, coefs, ops, maxnodes, formops, keypairs=(), lits=(("two", 2),), udeg=1, complex_env=True, simulate=None, depth=None, exclude=(), nenv=2, pre=(), uplain=False, wrapidx=False,
+                 vkinds=None, ukinds=None, gdim=2):
         self.name = name
+        self.gdim = gdim
+        self.vkinds = list(vkinds) if vkinds else ["P"] * len(vsub)
+        self.ukinds = list(ukinds) if ukinds else ["P"] * len(usub or [])
         self.wrapidx = wrapidx  # sampled programs also index Variable / Conj / Real / Imag nodes (exhaustive universes always do)
         self.uplain = uplain  # mixed == "element": the trial space is an ordinary (not mixed) space
         self.pre = [(op, tuple(a), tuple(mi)) for op, a, mi in pre]  # extra initial nodes: (op, operand names, mi)
@@ -110,12 +122,14 @@ class Uni:
             coefs=[[n, list(s)] for n, s in self.coefs], ops=sorted(self.ops), maxnodes=self.maxnodes, formops=sorted(self.formops),
             keypairs=[list(k) for k in self.keypairs], lits=[[n, v] for n, v in self.lits], udeg=self.udeg, complex_env=self.complex_env,
             exclude=sorted(self.exclude), nenv=self.nenv, pre=[[op, list(a), list(mi)] for op, a, mi in self.pre], uplain=self.uplain, wrapidx=self.wrapidx,
+            vkinds=list(self.vkinds), ukinds=list(self.ukinds), gdim=self.gdim,
         )
 
     @staticmethod
     def from_json(d):
         return Uni(d["name"], d["mixed"], d["vsub"], d["usub"], d["coefs"], d["ops"], d["maxnodes"], d["formops"], d["keypairs"],
-                   [tuple(x) for x in d["lits"]], d["udeg"], d["complex_env"], exclude=d.get("exclude", ()), nenv=d.get("nenv", 2), pre=d.get("pre", ()), uplain=d.get("uplain", False), wrapidx=d.get("wrapidx", False))
+                   [tuple(x) for x in d["lits"]], d["udeg"], d["complex_env"], exclude=d.get("exclude", ()), nenv=d.get("nenv", 2), pre=d.get("pre", ()), uplain=d.get("uplain", False), wrapidx=d.get("wrapidx", False),
+                   vkinds=d.get("vkinds"), ukinds=d.get("ukinds"), gdim=d.get("gdim", 2))
 
     # ---- derived layout --------------------------------------------------------------------
     @staticmethod
@@ -125,8 +139,25 @@ class Uni:
             n *= d
         return n
 
+    def ref_size(self, kind, sh):
+        """reference value size of a sub-element of kind `kind` with physical value shape sh"""
+        if kind == "P":
+            return self._size(sh)
+        if kind == "sym" and sh == (2, 2):
+            return 3
+        if kind == "curl" and sh == (self.gdim,):
+            return 2
+        raise MachineryError(f"universe {self.name}: no sub-element of kind {kind} with value shape {sh} on a mesh of dimension {self.gdim}")
+
     def _layout(self):
         mixed = self.mixed
+        if len(self.vkinds) != len(self.vsub) or len(self.ukinds) != len(self.usub or []):
+            raise MachineryError(f"universe {self.name}: one kind per sub-element")
+        # <<physical, reference>> value size of the sub-elements of a MixedElement side (spec: VSub / USub)
+        self.vsubsz = [(self._size(sh), self.ref_size(k, sh)) for k, sh in zip(self.vkinds, self.vsub)] if mixed == "element" else []
+        self.usubsz = [(self._size(sh), self.ref_size(k, sh)) for k, sh in zip(self.ukinds, self.usub or [])] if mixed == "element" and not self.uplain else []
+        if mixed != "element" and any(k != "P" for k in self.vkinds + self.ukinds):
+            raise MachineryError(f"universe {self.name}: sub-element kinds are modelled for MixedElement spaces only")
         sides = [("v", 0, self.vsub)] + ([("u", 1, self.usub)] if self.usub is not None else [])
         self.same_space = self.usub is not None and self.usub == self.vsub and self.udeg == 1
         args = []  # (name, num, part, shape)
@@ -188,7 +219,19 @@ class Uni:
                             ids.append(nid)
                             self.helper[nid] = (nm, off + k)
                             pnames[f"{nm}[{off + k}]"] = nid
-                        prelude.append(("list", tuple(ids), ()))
+                        if len(sh) == 2:
+                            # a matrix valued piece: the list tensor of its rows ("v_0r0", "v_0r1", ...)
+                            rows = []
+                            for r in range(sh[0]):
+                                prelude.append(("list", tuple(ids[r * sh[1] : (r + 1) * sh[1]]), ()))
+                                nid += 1
+                                rows.append(nid)
+                                pnames[f"{nm}_{s}r{r}"] = nid
+                            prelude.append(("rows", tuple(rows), ()))
+                        elif len(sh) == 1:
+                            prelude.append(("list", tuple(ids), ()))
+                        else:
+                            raise MachineryError(f"universe {self.name}: sub-element of rank {len(sh)}")
                         nid += 1
                         self.pieces[(num, s)] = nid
                         pnames[f"{nm}_{s}"] = nid
@@ -278,12 +321,14 @@ c_USlot == {slots(uni.uslot)}
 c_VPartOf == {_seq(uni.vpart)}
 c_UPartOf == {_seq(uni.upart)}
 c_ActCoef == {_seq([a or 0 for a in uni.actcoef])}
+c_VSub == <<{", ".join(_seq(x) for x in uni.vsubsz)}>>
+c_USub == <<{", ".join(_seq(x) for x in uni.usubsz)}>>
 c_Programs == {'LET s == JsonDeserialize("programs.json") IN {s[i] : i \\in DOMAIN s}' if programs else "{}"}
 ====
 """
 
 
-def mc_cfg(uni, ascoded, invariants=PROPERTY_INVS, dump=True):
+def mc_cfg(uni, ascoded, invariants=PROPERTY_INVS, dump=True, offset_by="physical"):
     lines = [
         "CONSTANTS",
         "Args <- c_Args",
@@ -309,6 +354,9 @@ def mc_cfg(uni, ascoded, invariants=PROPERTY_INVS, dump=True):
         "ActCoef <- c_ActCoef",
         f"SameSpace = {'TRUE' if uni.same_space else 'FALSE'}",
         f"AsCoded = {'TRUE' if ascoded else 'FALSE'}",
+        "VSub <- c_VSub",
+        "USub <- c_USub",
+        f'OffsetBy = "{offset_by}"',
         "Programs <- c_Programs",
         "SPECIFICATION Spec",
     ]
@@ -318,13 +366,13 @@ def mc_cfg(uni, ascoded, invariants=PROPERTY_INVS, dump=True):
     return "\n".join(lines) + "\n"
 
 
-def run_tlc(uni, seed, ascoded=False, invariants=PROPERTY_INVS, dump=True, timeout=900, workers=TLC_WORKERS, small=False):
+def run_tlc(uni, seed, ascoded=False, invariants=PROPERTY_INVS, dump=True, timeout=900, workers=TLC_WORKERS, small=False, offset_by="physical"):
     """One TLC run on a universe: exhaustive, or -- when uni.simulate = N -- on N sampled programs
     (drawn here, seeded; TLC checks every step against the constructors' guards)."""
     coefval = uni.coef_values(seed)
     name = "MC_" + uni.name.replace("-", "_")
     programs = sample_programs(uni, seed, uni.simulate) if uni.simulate else None
-    res = tlc.run(name, mc_cfg(uni, ascoded, invariants, dump), mc_text=mc_module(name, uni, coefval, ascoded, programs), mc_name=name,
+    res = tlc.run(name, mc_cfg(uni, ascoded, invariants, dump, offset_by), mc_text=mc_module(name, uni, coefval, ascoded, programs), mc_name=name,
                   workers=workers, timeout=timeout, env={"JAVA_TOOL_OPTIONS": JAVA_OPTS + (" -XX:TieredStopAtLevel=1" if small else "")},  # small runs: JIT start-up dominates
                   extra_files={"programs.json": json.dumps(programs)} if programs else None)
     if programs:
@@ -468,7 +516,7 @@ def _op_degs(op, ds):
         return Z if A == Z else NL
     if op == "pow":
         return Z if A == Z and B == Z else NL
-    if op == "list":
+    if op in ("list", "rows"):
         return frozenset().union(*ds)
     raise MachineryError(f"no degrees for {op}")
 
@@ -498,6 +546,8 @@ def _op_shape(op, xs):
         return ()
     if op == "list":
         return (len(xs),) if all(s == () for s in xs) else None
+    if op == "rows":  # prelude only
+        return (len(xs),) + tuple(x) if all(s == x for s in xs) and len(x) == 1 else None
     return None
 
 
@@ -512,16 +562,26 @@ class World:
     def __init__(self, uni, coefval):
         import ufl
 
-        from ..elements import LagrangeElement, MixedElement
+        from ufl.pullback import covariant_piola
+        from ufl.sobolevspace import HCurl
+
+        from ..elements import FiniteElement, LagrangeElement, MixedElement, SymmetricElement
 
         self.ufl = ufl
         self.uni = uni
         cell = ufl.triangle
-        self.mesh = ufl.Mesh(LagrangeElement(cell, 1, (2,)))
+        self.mesh = ufl.Mesh(LagrangeElement(cell, 1, (uni.gdim,)))
         mesh = self.mesh
 
-        def space(sh, deg=1):
-            return ufl.FunctionSpace(mesh, LagrangeElement(cell, deg, tuple(sh)))
+        def element(sh, deg=1, kind="P"):
+            if kind == "sym":
+                return SymmetricElement({(0, 0): 0, (0, 1): 1, (1, 0): 1, (1, 1): 2}, [LagrangeElement(cell, deg, ()) for _ in range(3)])
+            if kind == "curl":
+                return FiniteElement("N1curl", cell, deg, (2,), covariant_piola, HCurl)
+            return LagrangeElement(cell, deg, tuple(sh))
+
+        def space(sh, deg=1, kind="P"):
+            return ufl.FunctionSpace(mesh, element(sh, deg, kind))
 
         self.measures = {1: ufl.dx, 2: ufl.ds, 3: ufl.dx(1), 4: ufl.dx(2)}
         # spaces of the two sides
@@ -530,9 +590,13 @@ class World:
         self.argobj = []
         sides = [(0, uni.vsub, 1)] + ([(1, uni.usub, uni.udeg)] if uni.usub is not None else [])
         for num, subs, deg in sides:
-            self.subspaces[num] = [space(sh, deg) for sh in subs]
+            kinds = uni.vkinds if num == 0 else uni.ukinds
+            self.subspaces[num] = [space(sh, deg, k) for sh, k in zip(subs, kinds)]
+            for S, sh, k, (phys, ref) in zip(self.subspaces[num], subs, kinds, (uni.vsubsz if num == 0 else uni.usubsz)):
+                if tuple(S.value_shape) != tuple(sh) or S.value_size != phys or S.ufl_element().reference_value_size != ref:
+                    raise MachineryError(f"world: sub-element of kind {k} does not have the modelled value sizes: physical {S.value_shape}, reference {S.ufl_element().reference_value_shape}")
             if uni.mixed == "element" and not (num == 1 and uni.uplain):
-                self.side_space[num] = ufl.FunctionSpace(mesh, MixedElement([LagrangeElement(cell, deg, sh) for sh in subs]))
+                self.side_space[num] = ufl.FunctionSpace(mesh, MixedElement([element(sh, deg, k) for sh, k in zip(subs, kinds)]))
             elif uni.mixed == "space":
                 self.side_space[num] = ufl.MixedFunctionSpace(*self.subspaces[num])
             else:
@@ -608,6 +672,8 @@ class World:
             return a[i] * b[i]
         if op == "list":
             return ufl.as_vector(list(args))
+        if op == "rows":
+            return ufl.as_tensor(list(args))
         raise MachineryError(f"unknown constructor {op}")
 
     def build(self, prog):
